@@ -31,8 +31,11 @@ Theorem C12_running : forall validated mux_ok c0 ls s,
                  (forall a sid', net_get (net s) a = Some (Own sid') -> sid' = sid).
 Proof. intros v m c0 ls s. exact (running_serves_repaired true v m c0 ls s eq_refl). Qed.
 
-(* the observations the harness makes are the model's: at such a state a dial succeeds and a request for
-   each configured path is answered by that path's own route *)
+(* the observations the harness makes are the model's: at such a state a dial succeeds and a request for each
+   configured path is answered by what [route_of_path] says for that path.  DEFINITIONAL given C12_running (the served
+   configuration IS the held one, so the observed table is compared with itself); "by that path's OWN route" needs the
+   configuration to be duplicate-free: C12_running_observable_own.
+   Hypotheses: no foreign binder, s reachable (code's shutdown order), not crashed, state Running. *)
 Theorem C12_running_observable : forall validated mux_ok c0 ls s,
   no_foreign ls ->
   run (step true validated mux_ok) (init c0) ls = Some s ->
@@ -43,6 +46,18 @@ Theorem C12_running_observable : forall validated mux_ok c0 ls s,
   = Some s.
 Proof. intros v m c0 ls s. exact (running_observable_repaired true v m c0 ls s eq_refl). Qed.
 
+(* ... and the mux refusing repeated patterns (mux_sound, the only assumption on the oracle), the held configuration is
+   duplicate-free (C13_served_config_nodup), so "its own route" is literal: the table the harness must see maps every
+   configured path to the NAME of the route that carries it.
+   Hypotheses: mux_sound, no foreign binder, s reachable (code's shutdown order), not crashed, state Running. *)
+Theorem C12_running_observable_own : forall validated mux_ok c0 ls s,
+  mux_sound mux_ok -> no_foreign ls ->
+  run (step true validated mux_ok) (init c0) ls = Some s ->
+  crashed s = false -> fsm_st s = FRunning ->
+  step true validated mux_ok s
+    (LObsServe (addr (cur s)) (map (fun r => (rpath r, Some (rname r))) (routes (cur s)))) = Some s.
+Proof. intros v m c0 ls s Hm. exact (running_observable_own true v m c0 ls s Hm eq_refl). Qed.
+
 (* Once Run() has returned (hence once Stop() has returned: LStopRet is enabled only then) no server
    created by this runner is bound to any address: every address it used can be bound again.  Both variants. *)
 Theorem C12_released : forall sl validated mux_ok c0 ls s,
@@ -52,6 +67,7 @@ Theorem C12_released : forall sl validated mux_ok c0 ls s,
   forall a sid, net_get (net s) a <> Some (Own sid).
 Proof. exact released. Qed.
 
+(* DEFINITIONAL: the guard of LStopRet (lc.Stop returns only after Run's deferred done()); hypothesis: the step is taken *)
 Theorem C12_stop_returns_after_run : forall sl validated mux_ok s j s',
   step sl validated mux_ok s (LStopRet j) = Some s' -> (exists r, rpc s = RRet r) \/ rpc s = RDone.
 Proof. exact stop_ret_after_run. Qed.
@@ -95,6 +111,7 @@ Print Assumptions C12_running_refuted_legacy.
 Print Assumptions C12_witness_repaired.
 Print Assumptions C12_model_in_use.
 Print Assumptions C12_running_observable.
+Print Assumptions C12_running_observable_own.
 Print Assumptions C12_released.
 Print Assumptions C12_stop_returns_after_run.
 
@@ -110,11 +127,18 @@ Definition c12_sched : list label :=
    LReloadCall 0; LReloadBegin 0; LFetch (CbCfg c12_b); LStopCallS 0; LShutdownRet 0 SOk;
    LBootCreate 1 c12_b; LBindOk 1; LProbeOk; LFinish; LReloadRet 0;
    LObsState FRunning; LObsDial [66%N] true; LObsDial [65%N] false;
-   LStopCall 0; LRunWake; LRunLockStop; LStopCallS 1; LShutdownRet 1 SOk; LRunRet ROk; LStopRet 0;
+   LStopCall 0; LRunWake; LRunLockStop; LStopCallS 1; LShutdownRet 1 SOk; LRunFinishStop; LRunRet ROk; LStopRet 0;
    LObsDial [66%N] false].
 Example C12_ex_full_cycle :
   exists s, run (step true false (fun _ => true)) (init c12_a) c12_sched = Some s /\
             fsm_st s = FStopped /\ rpc s = RDone /\ net s = [].
 Proof. eexists. split; [vm_compute; reflexivity|]. repeat split. Qed.
+(* all hypotheses of C12_running_observable_own at once: a sound oracle, a foreign-binder-free schedule, Running *)
+Example C12_ex_own_hyps :
+  mux_sound nodup_oracle /\
+  exists s, run (step true true nodup_oracle) (init c12_b)
+              [LRunCall; LRunStart; LRunLock; LBootCreate 0 c12_b; LBindOk 0; LProbeOk; LRunFinishBoot] = Some s /\
+            crashed s = false /\ fsm_st s = FRunning.
+Proof. split; [exact nodup_oracle_sound|]. eexists. split; [vm_compute; reflexivity|]. split; reflexivity. Qed.
 Example C12_ex_no_foreign : no_foreign c12_sched.
 Proof. repeat constructor. Qed.
